@@ -195,6 +195,7 @@ Definition ex1 : input Z :=
 Example C17_nonvacuous_discrete :
   one_sided (cf ex1) /\
   (forall x : Z, nonnegZ x = (0 <=? Z.sgn x)%Z) /\
+  (forall x : dyadic, nonnegD x = (0 <=? sgnD x)%Z) /\   (* the instance executed by the tie *)
   discretize Z nonnegZ ex1 =
     Ok {| upwind := [(2, 2, 1%Z); (3, 3, 1%Z); (4, 2, 1%Z); (5, 3, 1%Z)];
           upwind_shape := (8, 6);
@@ -205,6 +206,7 @@ Example C17_nonvacuous_discrete :
   (exists o, discretize Z nonnegZ (set_ncomp Z ex1 1) = Ok o).
 Proof.
   split; [apply one_sidedb_sound; vm_compute; reflexivity|].
+  split; [intros x; reflexivity|].
   split; [intros x; reflexivity|].
   split; [vm_compute; reflexivity|].
   split; [vm_compute; discriminate|].
